@@ -131,6 +131,9 @@ func dohExchange(addr string, c *e2eCase, q *dns.Msg) (status int, err error) {
 	if err != nil {
 		return 0, err
 	}
+	if c.rq.Host != "" {
+		req.Host = c.rq.Host
+	}
 	req.Header.Set("Content-Type", dnsserver.MimeTypeDoH)
 	req.Header.Set("Accept", dnsserver.MimeTypeDoH)
 	if c.header != "" {
@@ -182,12 +185,23 @@ func runE2E(r *vkit.Run, w *world, round int) {
 		return
 	}
 	ctx := context.Background()
+	// What was REALLY in each ClientHello, by the client's address: the ground
+	// truth for the TLS server name channel.
+	var wireMu sync.Mutex
+	wireSNI := map[string]string{}
+	recordHello := func(chi *tls.ClientHelloInfo) (*tls.Config, error) {
+		wireMu.Lock()
+		wireSNI[chi.Conn.RemoteAddr().String()] = chi.ServerName
+		wireMu.Unlock()
+		return nil, nil
+	}
 	dohSpec, dotSpec := w.server("gp", "doh"), w.server("gp", "dot")
 	hDoH := &e2eHandler{w: w, s: dohSpec, seen: map[string]*captured{}}
 	hDoT := &e2eHandler{w: w, s: dotSpec, seen: map[string]*captured{}}
 	doh := dnsserver.NewServerHTTPS(dnsserver.ConfigHTTPS{
-		ConfigBase:     dnsserver.ConfigBase{Name: "e2e-doh", Addr: "127.0.0.1:0", Handler: hDoH, Network: dnsserver.NetworkTCP},
-		TLSConfDefault: &tls.Config{Certificates: []tls.Certificate{cert}, NextProtos: dnsserver.NextProtoDoH, MinVersion: tls.VersionTLS12},
+		ConfigBase: dnsserver.ConfigBase{Name: "e2e-doh", Addr: "127.0.0.1:0", Handler: hDoH, Network: dnsserver.NetworkTCP},
+		TLSConfDefault: &tls.Config{Certificates: []tls.Certificate{cert}, NextProtos: dnsserver.NextProtoDoH, MinVersion: tls.VersionTLS12,
+			GetConfigForClient: recordHello},
 	})
 	if err = doh.Start(ctx); err != nil {
 		r.Inconclusive("e2e: starting doh: " + err.Error())
@@ -197,7 +211,7 @@ func runE2E(r *vkit.Run, w *world, round int) {
 	dot := dnsserver.NewServerTLS(dnsserver.ConfigTLS{
 		ConfigDNS: dnsserver.ConfigDNS{ConfigBase: dnsserver.ConfigBase{Name: "e2e-dot", Addr: "127.0.0.1:0", Handler: hDoT},
 			ReadTimeout: e2eTimeout, WriteTimeout: e2eTimeout, TCPIdleTimeout: e2eTimeout},
-		TLSConfig: &tls.Config{Certificates: []tls.Certificate{cert}, MinVersion: tls.VersionTLS12},
+		TLSConfig: &tls.Config{Certificates: []tls.Certificate{cert}, MinVersion: tls.VersionTLS12, GetConfigForClient: recordHello},
 	})
 	if err = dot.Start(ctx); err != nil {
 		r.Inconclusive("e2e: starting dot: " + err.Error())
@@ -216,9 +230,23 @@ func runE2E(r *vkit.Run, w *world, round int) {
 			case "userinfo":
 				ok = c.HasUser == rq.HasUser && c.User == rq.User && c.PassSet == rq.PassSet && c.Pass == rq.Pass
 			case "sni":
-				ok = strings.EqualFold(c.SNI, rq.SNI)
-				if ok && c.SNI != rq.SNI {
-					r.Bucket("e2e_sni_case_changed", 1)
+				// The harness side: was the intended server name really in the
+				// ClientHello?  (A difference here is a harness problem.)
+				wireMu.Lock()
+				wire, seen := wireSNI[c.Remote]
+				delete(wireSNI, c.Remote)
+				wireMu.Unlock()
+				ok = seen && wire == rq.SNI
+				if ok {
+					r.Bucket("e2e_wire_sni_confirmed", 1)
+					// The server side: a TLS server name in the RequestInfo that
+					// is not the one of the ClientHello is the server's doing, not
+					// an assumption of the harness; the case is judged by its
+					// outcome against what was really sent.
+					if c.SNI != wire {
+						r.Bucket("e2e_server_tls_name_differs_from_clienthello", 1)
+						continue
+					}
 				}
 			}
 			if ok {
@@ -227,7 +255,7 @@ func runE2E(r *vkit.Run, w *world, round int) {
 				r.Bucket("e2e_requestinfo_mismatch:"+f, 1)
 				if !mismatch[f] {
 					mismatch[f] = true
-					r.Inconclusive(fmt.Sprintf("e2e: the RequestInfo built by the real %s server differs from what the decision table assumes in field %q: sent %s, handler saw %s",
+					r.Inconclusive(fmt.Sprintf("e2e: harness mismatch on the %s listener in field %q (for sni: the ClientHello did not carry the intended name; for path/userinfo: the handler saw something else than was sent and the wire cannot be observed independently): sent %s, handler saw %s",
 						rq.Layer, f, vkit.JSON(rq), vkit.JSON(c)))
 				}
 			}
@@ -316,6 +344,40 @@ func runE2E(r *vkit.Run, w *world, round int) {
 					}
 					r.Bucket(fmt.Sprintf("e2e_http_status:%d", status), 1)
 					finish(rq, hDoH, q, "path", "userinfo", "sni")
+				}
+			}
+		}
+	}
+	// DoH: a device-like name only in the HTTP Host header (:authority on
+	// HTTP/2), which is not an identification channel; no or a foreign server
+	// name in the ClientHello, nothing in the path, no credentials.
+	for _, d := range w.Devs {
+		id := string(d.ID)
+		hosts := []string{id + "." + domMain, id + "." + domMain + ":8443", strings.ToUpper(id + "." + domMain), id + "." + domAlt + ":443"}
+		for si, sni := range []string{"", id + ".foreign.example"} {
+			for hi, host := range hosts {
+				for _, h2 := range []bool{false, true} {
+					rq := newRq("e2e-doh", dohSpec, d, fmt.Sprintf("e2e-doh/host-header=%d/sni=%d/h2=%v", hi, si, h2))
+					rq.Path, rq.SNI, rq.Host = "/dns-query", sni, host
+					q := stack.NewQuery(uint16(rq.Idx), fmt.Sprintf("e%d.e2e.example.org", rq.Idx), dns.TypeA, dns.ClassINET)
+					ec := &e2eCase{rq: rq, h2: h2}
+					var xerr error
+					for try := 0; try < 3; try++ {
+						if _, xerr = dohExchange(dohAddr, ec, q); xerr == nil {
+							break
+						}
+						r.Bucket("e2e_client_retries", 1)
+					}
+					if xerr != nil {
+						r.Bucket("e2e_client_errors", 1)
+						r.Inconclusive(fmt.Sprintf("e2e: doh client error for request %d: %v", rq.Idx, xerr))
+						continue
+					}
+					finish(rq, hDoH, q, "path", "userinfo", "sni")
+					r.Bucket("e2e_host_header_cases", 1)
+					if sni == "" {
+						r.Bucket("e2e_host_header_cases_without_sni", 1)
+					}
 				}
 			}
 		}
